@@ -197,6 +197,9 @@ class C13(AstKindProp):
         return ans
 
     def oracle(self, c, run):
+        if c.get("family") == "first-call":
+            rounds, _ = self._first_call_rounds()
+            return [] if len(rounds) == 3 and rounds[0] == rounds[1] == rounds[2] else [{"what": "the first conversion of a process differs from the same conversion made later"}]
         if c["family"] == "ast":
             return self.oracle_ast(c, run)
         fails = []
@@ -283,6 +286,33 @@ class C13(AstKindProp):
                 fails.append({"what": "the tree given to the parser/emitter was altered", "step": step, "op": op, "history": c["history"]})
                 break
         return fails
+
+    # ---- the first call of a process ---------------------------------------------------------------
+    def _first_call_rounds(self):
+        import os
+        import subprocess
+
+        from ..common import VERIF
+
+        pr = subprocess.run(["/venv/bin/python", os.path.join(VERIF, "harness", "c13_worker.py"), VERIF], capture_output=True, text=True, cwd=VERIF,
+                            env=dict(os.environ, PYTHONDONTWRITEBYTECODE="1"))  # fmt: skip
+        rounds = [json.loads(l) for l in pr.stdout.splitlines() if l.startswith("{")]
+        return rounds, pr.stderr[-400:]
+
+    def extra(self, run):
+        """in a fresh interpreter the same conversions three times in a row: the first round is what the later ones are"""
+        rounds, err = self._first_call_rounds()
+        run.evaluations += 1
+        run.count("first-call:rounds", len(rounds))
+        if len(rounds) != 3:
+            from ..common import HarnessError
+
+            raise HarnessError("C13 first-call worker produced %d rounds: %s" % (len(rounds), err))
+        for k in (1, 2):
+            if rounds[k] != rounds[0]:
+                diff = {key: [rounds[0].get(key), rounds[k].get(key)] for key in rounds[0] if rounds[0].get(key) != rounds[k].get(key)}
+                run.failures.append(({"family": "first-call", "round": k}, {"what": "the first conversion of a process differs from the same conversion made later", "differences": {a: [str(x)[:300] for x in b] for a, b in list(diff.items())[:3]}}))
+                break
 
     def classify(self, c, fl):
         return None
